@@ -1,7 +1,7 @@
 //! Parent process: shards a check over worker processes, merges what they
 //! observed, writes the evidence file and prints the verdict.
 
-use crate::ctx::{Ctx, Tier, BITMAP_LOG2};
+use crate::ctx::{bitmap_log2, Ctx, Tier};
 use serde_json::{json, Value};
 use std::collections::BTreeMap;
 use std::path::{Path, PathBuf};
@@ -285,7 +285,7 @@ fn merge_output(m: &mut Merged, out: &Path, layer: &str) -> Result<(), String> {
     if let Some(p) = v["bitmap"].as_str() {
         if let Ok(bytes) = std::fs::read(p) {
             if m.bitmap.is_empty() {
-                m.bitmap = vec![0u64; 1usize << (BITMAP_LOG2 - 6)];
+                m.bitmap = vec![0u64; bytes.len() / 8];
             }
             for (i, ch) in bytes.chunks_exact(8).enumerate() {
                 if i < m.bitmap.len() {
@@ -346,6 +346,10 @@ pub fn run_check(spec: &PropSpec, tier: Tier) -> i32 {
     let mut layer_notes: BTreeMap<String, Value> = BTreeMap::new();
     for (layer, scale) in layers {
         let lt0 = Instant::now();
+        if layer == "fuzz" {
+            run_fuzz_layer(spec, tier, seed, scale, &scratch, &mut merged, &mut layer_notes);
+            continue;
+        }
         let prefix = match layer_command(layer) {
             Ok(p) => p,
             Err(e) => {
@@ -512,7 +516,7 @@ pub fn run_check(spec: &PropSpec, tier: Tier) -> i32 {
         "coverage": {
             "evaluations": merged.evaluations,
             "distinct_nontrivial": distinct,
-            "rule": format!("{} [distinct_nontrivial is a lower bound: number of bits set in a 2^{}-bit bitmap indexed by a 64-bit hash of the whole case (input bytes + configuration + schedule), set only for cases that satisfy the non-triviality rule]", spec.rule, BITMAP_LOG2),
+            "rule": format!("{} [distinct_nontrivial is a lower bound: number of bits set in a 2^{}-bit bitmap indexed by a 64-bit hash of the whole case (input bytes + configuration + schedule), set only for cases that satisfy the non-triviality rule]", spec.rule, bitmap_log2(tier)),
             "samples": samples,
             "exhaustive": !merged.exhaustive_parts.is_empty(),
             "exhaustive_parts": merged.exhaustive_parts,
@@ -576,6 +580,106 @@ pub fn run_check(spec: &PropSpec, tier: Tier) -> i32 {
     }
     println!("HELD property={} on everything observed", spec.id);
     EXIT_HELD
+}
+
+/// Coverage-guided layer: the monitor of this property as a libFuzzer target (fuzz/fuzz_targets/fz_<id>.rs),
+/// run for `secs` seconds on 16 forks. A saved crash input is replayed through the monitor's own
+/// oracle; if it reproduces it is a violation, otherwise (timeouts, OOMs, flaky) inconclusive.
+fn run_fuzz_layer(
+    spec: &PropSpec,
+    tier: Tier,
+    seed: u64,
+    secs: u64,
+    scratch: &Path,
+    merged: &mut Merged,
+    notes: &mut BTreeMap<String, Value>,
+) {
+    let t0 = Instant::now();
+    let h = harness_dir();
+    let target = format!("fz_{}", spec.id.to_lowercase());
+    let corpus = h.join("fuzz").join("corpus").join(&target);
+    let _ = std::fs::create_dir_all(&corpus);
+    crate::monitors::write_fuzz_seeds(spec.id, &corpus);
+    let art = scratch.join("fuzz-artifacts");
+    let _ = std::fs::create_dir_all(&art);
+    let mut c = Command::new("cargo");
+    c.current_dir(&h)
+        .args(["+nightly", "fuzz", "run", "--fuzz-dir", "fuzz", &target, "--"])
+        .arg(format!("-max_total_time={}", secs))
+        .arg("-timeout=10")
+        .arg(format!("-seed={}", (seed % 0x7FFF_FFFF) + 1))
+        .arg("-fork=16")
+        .arg("-print_final_stats=1")
+        .arg(format!("-artifact_prefix={}/", art.display()))
+        .env("CARGO_NET_OFFLINE", "true")
+        .env("VERIF_ROOT", crate::verif_root())
+        .stdin(Stdio::null());
+    let out = match c.output() {
+        Ok(o) => o,
+        Err(e) => {
+            merged.inconclusive.push(format!("fuzz layer: cannot start cargo fuzz: {}", e));
+            return;
+        }
+    };
+    let text = format!("{}{}", String::from_utf8_lossy(&out.stdout), String::from_utf8_lossy(&out.stderr));
+    // last status line: "#N: cov: C ft: F corp: K ..."
+    let (mut execs, mut cov, mut corp) = (0u64, 0u64, 0u64);
+    for l in text.lines() {
+        if l.starts_with('#') && l.contains(" cov: ") {
+            let num = |key: &str| -> u64 {
+                l.split(key).nth(1).and_then(|r| r.split_whitespace().next()).and_then(|x| x.parse().ok()).unwrap_or(0)
+            };
+            execs = l[1..].split(':').next().and_then(|x| x.trim().parse().ok()).unwrap_or(execs);
+            cov = num(" cov: ");
+            corp = num(" corp: ");
+        }
+    }
+    *merged.counters.entry("layer.fuzz.executions".into()).or_insert(0) += execs;
+    let e = merged.counters.entry("max.layer.fuzz.coverage_edges".into()).or_insert(0);
+    *e = (*e).max(cov);
+    *merged.counters.entry("layer.fuzz.corpus_inputs".into()).or_insert(0) += corp;
+    merged.evaluations += execs;
+    *merged.layer_evals.entry("fuzz".into()).or_insert(0) += execs;
+    // artifacts
+    let mut found = 0;
+    if let Ok(rd) = std::fs::read_dir(&art) {
+        for ent in rd.flatten() {
+            let name = ent.file_name().to_string_lossy().to_string();
+            let bytes = match std::fs::read(ent.path()) {
+                Ok(b) => b,
+                Err(_) => continue,
+            };
+            found += 1;
+            let case = json!({"fuzz": crate::ctx::hex(&bytes), "fuzz_target": target, "artifact": name});
+            let mut ctx = Ctx::new(spec.id, tier, seed, 0, 1);
+            ctx.layer = "fuzz".into();
+            ctx.known_active = known_active_for(spec.id);
+            let verdict = crate::ctx::guarded(|| (spec.replay)(&case, &mut ctx));
+            let detail = match verdict {
+                Ok(Some(d)) => Some(d),
+                Err(p) => Some(p),
+                Ok(None) => None,
+            };
+            match detail {
+                Some(d) if name.starts_with("crash") => {
+                    ctx.violation(case, format!("found by the libFuzzer layer ({}): {}", name, d));
+                    merged.violations.extend(ctx.violations);
+                }
+                _ => merged.inconclusive.push(format!("fuzz layer: artifact {} did not reproduce as a violation through the monitor", name)),
+            }
+        }
+    }
+    if !out.status.success() && found == 0 {
+        let tailtxt: Vec<&str> = text.lines().rev().take(12).collect();
+        merged.inconclusive.push(format!("fuzz layer: cargo fuzz exited with {} and left no artifact; tail: {}", out.status, tailtxt.into_iter().rev().collect::<Vec<_>>().join(" | ")));
+    }
+    if execs == 0 && out.status.success() {
+        merged.inconclusive.push("fuzz layer: no executions reported".into());
+    }
+    notes.insert(
+        "fuzz".into(),
+        json!({"target": target, "seconds": secs, "wall_s": t0.elapsed().as_secs_f64(), "executions": execs, "coverage_edges": cov, "corpus_inputs": corp, "artifacts": found}),
+    );
 }
 
 pub fn run_replay(specs: &[PropSpec], path: &str) -> i32 {
